@@ -26,6 +26,27 @@ Theorem C06_any_check_answer : forall lg io l e,
 Proof. exact finish_terminal. Qed.
 Print Assumptions C06_any_check_answer.
 
+(* ... and whatever the message: [front_call w lg io m l msg] is the call of method m at level l whose
+   arguments amount to the message msg (what fmt makes of the arguments, what bytes.TrimSpace leaves
+   of a std-log line: empty, blank, anything).  What a call does never depends on it; a terminal call
+   terminates for every message, and the default panic action carries exactly that message *)
+Theorem C06_message_irrelevant : forall w lg io m l msg,
+  fst (front_call w lg io m l msg) = log_call w lg io (fam_of m) l.
+Proof. exact message_irrelevant. Qed.
+Print Assumptions C06_message_irrelevant.
+Theorem C06_any_message : forall w lg io m l msg,
+  In m methods -> can_log m l = true -> terminal lg l ->
+  front_call w lg io m l msg =
+  (write_events io l (cores_of (check w (lcore lg) l None)), Some (expected_action lg l),
+   panic_value (Some (expected_action lg l)) msg).
+Proof. exact any_message_thm. Qed.
+Print Assumptions C06_any_message.
+Theorem C06_panic_carries_message : forall w lg io m l msg,
+  In m methods -> can_log m l = true -> terminal lg l -> expected_action lg l = APanic ->
+  snd (front_call w lg io m l msg) = Some msg.
+Proof. exact panic_carries_message. Qed.
+Print Assumptions C06_panic_carries_message.
+
 (* the action is the configured hook, except that a nil or WriteThenNoop hook means the default
    (panic with the message / exit status 1) *)
 Theorem C06_hook_override : forall lg,
@@ -101,3 +122,10 @@ Example C06_example_dpanic_disabled :
 Proof. vm_compute. split; reflexivity. Qed.
 Example C06_example_wf : wf (SL [SL [SZ 1]; SL []; SZ 1; SL [SZ 0]; SL [SZ 1]; SZ 0; SL [SL [SZ 2; SZ 7; SZ 3; SZ 5]]]) = true.
 Proof. vm_compute. reflexivity. Qed.
+(* a blank line through the std-log bridge at Panic level on a no-op core: the panic carries the empty message *)
+Example C06_example_blank_stdlog :
+  front_call (fun _ => InvalidL) {| lcore := Nop; dev := false; on_panic := HNil; on_fatal := HNil |} all_io
+             {| m_recv := RStdLog; m_kind := KLog; m_suffix := SNone |} PanicL [] = ([], Some APanic, Some []) /\
+  model (SL [SL [SZ 1]; SL []; SZ 0; SL [SZ 0]; SL [SZ 0]; SZ 0; SL [SL [SZ 4; SZ 0; SZ 0; SZ 4; SB []]]]) =
+  SL [SL [SL [SL []; SL [SZ 0; SB []]]]; SL []].
+Proof. vm_compute. split; reflexivity. Qed.
